@@ -95,7 +95,6 @@ EXPORT errno_t _memset32_s_chk(uint32_t *dest, rsize_t dmax, uint32_t value,
         BND_CHK_PTR_BOUNDS(dest, n);
     } else {
         CHK_DEST_MEM_OVR("memset32_s", destbos)
-        dmax = destbos;
     }
 
     err = EOK;
